@@ -503,3 +503,96 @@ Lemma F_req_event_valid : forall st a d, status_in st request_statuses_f = true 
 Proof.
   intros st a d H Hd. destruct d; [specialize (Hd eq_refl)|clear Hd]; destruct a; destruct st; try discriminate H; try discriminate Hd; vm_compute; reflexivity.
 Qed.
+
+(* ---- the backward link: how an active task record stops being busy ---- *)
+(* a slot that was never offered: neither active nor completed *)
+Definition open_slot (x : status) : bool := negb (status_in x ACTIVE_STATUSES) && negb (status_in x COMPLETED_STATUSES).
+Definition has_open (l : list status) : bool := existsb open_slot l.
+
+(* an item report with no other active item ("..._task_dormant_..."), on an active record: the record is active afterwards
+   only if it was running, the report is a success and another item was never offered -- and then it is running *)
+Lemma F_dormant_report : forall w t route i st s0 l n cur x,
+  get_staged_task w t route = Some s0 -> s_items s0 = Some l -> status_in st COMPLETED_STATUSES = true ->
+  existsb (fun y => status_in y ACTIVE_STATUSES) (list_del_nth i l) = false ->
+  item_event_name w t route i st = Val n -> status_in cur [S_RUNNING; S_PAUSING; S_CANCELING] = true ->
+  (tbl_step task_table cur n = None -> False) /\
+  (tbl_step task_table cur n = Some x -> status_in x ACTIVE_STATUSES = true ->
+     x = S_RUNNING /\ cur = S_RUNNING /\ existsb (fun y => negb (status_in y COMPLETED_STATUSES)) (list_del_nth i l) = true).
+Proof.
+  intros w t route i st s0 l n cur x Hs Hl Hst Hact Hn Hcur.
+  assert (Hreq : status_in st item_requirements = true) by (destruct st; try discriminate Hst; reflexivity).
+  unfold item_event_name in Hn. rewrite Hreq, Hs, Hl in Hn. cbn [negb] in Hn.
+  destruct (negb (Nat.ltb i (length l))); [discriminate|]. cbv zeta in Hn. rewrite Hact in Hn. cbn [negb andb] in Hn.
+  destruct (existsb (fun y => status_in y [S_PENDING; S_PAUSED]) (list_del_nth i l));
+  destruct (existsb (fun y => status_eqb y S_CANCELED) (list_del_nth i l));
+  destruct (existsb (fun y => status_in y ABENDED_STATUSES) (list_del_nth i l));
+  destruct (existsb (fun y => negb (status_in y COMPLETED_STATUSES)) (list_del_nth i l));
+  cbn [negb andb] in Hn; inversion Hn; subst n; clear Hn;
+  destruct st; try discriminate Hst; destruct cur; try discriminate Hcur;
+  (split; [vm_compute; discriminate|intros E Hx; vm_compute in E; inversion E; subst x; try discriminate Hx; repeat split; reflexivity]).
+Qed.
+
+(* a completion report on the single action of an active task completes it *)
+Lemma F_plain_report : forall st cur, status_in st COMPLETED_STATUSES = true -> status_in cur [S_RUNNING; S_PAUSING; S_CANCELING] = true ->
+  exists x, tbl_step task_table cur (ACTION_EVENT_PREFIX ++ status_name st) = Some x /\ status_in x ACTIVE_STATUSES = false.
+Proof.
+  intros st cur Hst Hcur. destruct st; try discriminate Hst; destruct cur; try discriminate Hcur; eexists; split; vm_compute; reflexivity.
+Qed.
+
+(* a pause / cancel request seen by an active task: with an active item the task ends pausing or canceling ("told");
+   with no active item but an item never offered it ends inactive *)
+Lemma F_told_active : forall w t route st s0 l cur, get_staged_task w t route = Some s0 -> s_items s0 = Some l ->
+  status_in st (app PAUSE_STATUSES CANCEL_STATUSES) = true -> existsb (fun x => status_in x ACTIVE_STATUSES) l = true ->
+  status_in cur [S_RUNNING; S_PAUSING; S_CANCELING] = true ->
+  status_in (match tbl_step task_table cur (task_workflow_event_name w t route st) with Some x => x | None => cur end) [S_PAUSING; S_CANCELING] = true.
+Proof.
+  intros w t route st s0 l cur Hs Hl Hpc Hact Hcur. unfold task_workflow_event_name. rewrite Hpc, Hs, Hl, Hact.
+  assert (Hinc : existsb (fun x => negb (status_in x COMPLETED_STATUSES)) l = true).
+  { apply existsb_exists in Hact. destruct Hact as [x [Hin Hx]]. apply existsb_exists. exists x. split; [exact Hin|].
+    destruct x; try discriminate Hx; reflexivity. }
+  rewrite Hinc. destruct st; try (vm_compute in Hpc; discriminate Hpc); destruct cur; try discriminate Hcur; vm_compute; reflexivity.
+Qed.
+
+Lemma F_told_dormant : forall w t route st s0 l x, get_staged_task w t route = Some s0 -> s_items s0 = Some l ->
+  status_in st (app PAUSE_STATUSES CANCEL_STATUSES) = true -> existsb (fun x => status_in x ACTIVE_STATUSES) l = false ->
+  has_open l = true ->
+  tbl_step task_table S_RUNNING (task_workflow_event_name w t route st) = x -> exists y, x = Some y /\ status_in y ACTIVE_STATUSES = false.
+Proof.
+  intros w t route st s0 l x Hs Hl Hpc Hact Hop H. unfold task_workflow_event_name in H. rewrite Hpc, Hs, Hl, Hact in H.
+  assert (Hinc : existsb (fun x => negb (status_in x COMPLETED_STATUSES)) l = true).
+  { unfold has_open in Hop. apply existsb_exists in Hop. destruct Hop as [y [Hin Hy]]. apply existsb_exists. exists y. split; [exact Hin|].
+    unfold open_slot in Hy. apply andb_prop in Hy. apply Hy. }
+  rewrite Hinc in H. subst x. destruct st; try (vm_compute in Hpc; discriminate Hpc); eexists; split; vm_compute; reflexivity.
+Qed.
+
+(* an item report with another item active leaves a told task told *)
+Lemma F_told_stays : forall w t route i st s0 l n cur,
+  get_staged_task w t route = Some s0 -> s_items s0 = Some l -> status_in st COMPLETED_STATUSES = true ->
+  existsb (fun y => status_in y ACTIVE_STATUSES) (list_del_nth i l) = true ->
+  item_event_name w t route i st = Val n -> status_in cur [S_PAUSING; S_CANCELING] = true ->
+  match tbl_step task_table cur n with Some x => x | None => cur end = cur.
+Proof.
+  intros w t route i st s0 l n cur Hs Hl Hst Hact Hn Hcur.
+  assert (Hreq : status_in st item_requirements = true) by (destruct st; try discriminate Hst; reflexivity).
+  unfold item_event_name in Hn. rewrite Hreq, Hs, Hl in Hn. cbn [negb] in Hn.
+  destruct (negb (Nat.ltb i (length l))); [discriminate|]. cbv zeta in Hn. rewrite Hact in Hn. cbn [negb andb] in Hn.
+  match type of Hn with context [if ?b then _ else _] => destruct b end; inversion Hn; subst n;
+    destruct st; try discriminate Hst; destruct cur; try discriminate Hcur; vm_compute; reflexivity.
+Qed.
+
+(* a completion report on the single action of a task leaves its record inactive, whatever it was *)
+Lemma F_plain_any : forall st cur, status_in st COMPLETED_STATUSES = true -> status_in cur UNUSED_STATUSES = false ->
+  match tbl_step task_table cur (ACTION_EVENT_PREFIX ++ status_name st) with
+  | Some x => status_in x ACTIVE_STATUSES = false
+  | None => status_in cur ACTIVE_STATUSES = false
+  end.
+Proof.
+  intros st cur Hst Hcur. destruct st; try discriminate Hst; destruct cur; try discriminate Hcur; vm_compute; reflexivity.
+Qed.
+
+(* a request that is neither a pause nor a cancel, seen by a running task: it stays running or stops *)
+Lemma F_running_base : forall st x, status_in st (app PAUSE_STATUSES CANCEL_STATUSES) = false ->
+  tbl_step task_table S_RUNNING (WORKFLOW_EVENT_PREFIX ++ status_name st) = Some x -> status_in x ACTIVE_STATUSES = true -> x = S_RUNNING.
+Proof.
+  intros st x Hst H Hx. destruct st; try discriminate Hst; vm_compute in H; inversion H; subst x; try discriminate Hx; reflexivity.
+Qed.
